@@ -341,6 +341,13 @@ func (r *fileRewriter) rewrite() error {
 			}
 			r.stats["import_sync"]++
 		}
+		if p == "sync/atomic" {
+			im.Path.Value = strconv.Quote("verif/rt/vatomic")
+			if im.Name == nil {
+				im.Name = ast.NewIdent("atomic")
+			}
+			r.stats["import_atomic"]++
+		}
 	}
 
 	if r.isMain {
